@@ -972,6 +972,8 @@ func yamlText(v interface{}, indent string, b *strings.Builder) {
 	}
 }
 
+var sharedDecs = map[string]dials.Decoder{}
+
 func (r *srcRun) runDecoders() {
 	tree, ok := r.docTree("json")
 	// outside the property's scope (untagged fields, kinds without a common spelling) the decoders are still run on what
@@ -1018,6 +1020,29 @@ func (r *srcRun) runDecoders() {
 			if err == nil && len(r.mis) == before && judged {
 				results[name] = res
 			}
+			// C20 (wrapping a decoder does not change what reaches the config): one wrapped decoder instance serves every
+			// config type of this process, as a package-level decoder would; it must behave like the fresh one
+			func() {
+				defer func() {
+					if rec := recover(); rec != nil {
+						r.add("C20", name, "a transforming decoder instance used for other config types before: panic: %v", rec)
+					}
+				}()
+				sh, ok := sharedDecs[name]
+				if !ok {
+					sh = sourcewrap.NewTransformingDecoder(decs[name], transform.NewAliasMangler("dials"), &transform.SetSliceMangler{})
+					sharedDecs[name] = sh
+				}
+				res2, err2 := (&static.StringSource{Data: docs[name], Decoder: sh}).Value(context.Background(), dials.NewType(r.ptyp))
+				switch {
+				case (err == nil) != (err2 == nil):
+					r.add("C20", name, "a transforming decoder instance used for other config types before: error %v, a fresh instance: %v", err2, err)
+				case err == nil && res2.Type() != res.Type():
+					r.add("C20", name, "a transforming decoder instance used for other config types before returns a %s, asked for %s", res2.Type(), res.Type())
+				case err == nil && !reflect.DeepEqual(res.Interface(), res2.Interface()):
+					r.add("C20", name, "a transforming decoder instance used for other config types before decodes %q differently from a fresh one", docs[name])
+				}
+			}()
 			if len(r.mis) > before && r.c.Garbage == "" {
 				r.mis[len(r.mis)-1].Detail += " | document: " + docs[name]
 			}
